@@ -338,7 +338,8 @@ fn execute_in(bin: &Path, dir: &Path, c: &Case, case: &str) -> String {
 }
 
 // ---------------------------------------------------------------- generation
-const SMALL_KEYS: [&[u8]; 4] = [b"a", b"b", b"ab", b""];
+// incl. keys that differ only by blanks at either end (a key is the bytes of the line / of the first CSV field)
+const SMALL_KEYS: [&[u8]; 8] = [b"a", b"b", b"ab", b"", b" a", b"a ", b" ", b"\ta"];
 const BIG: u64 = 1 << 63;
 
 fn random_key(rng: &mut Rng, pool: usize) -> Vec<u8> {
@@ -346,7 +347,15 @@ fn random_key(rng: &mut Rng, pool: usize) -> Vec<u8> {
     let id = rng.below(pool as u64);
     let mut r = Rng::new(id.wrapping_mul(7919) + 17);
     let len = if id == 0 { 0 } else { 1 + r.below(6) as usize };
-    (0..len).map(|_| *r.pick(b"abcdefghijklmnopqrstuvwxyz0123456789")).collect()
+    let mut k: Vec<u8> = (0..len).map(|_| *r.pick(b"abcdefghijklmnopqrstuvwxyz0123456789")).collect();
+    // one key in six carries a blank or a tab at an end or inside
+    match r.below(18) {
+        0 => k.insert(0, b' '),
+        1 => k.push(b' '),
+        2 => k.push(b'\t'),
+        _ => {}
+    }
+    k
 }
 
 /// keep every per-key total below 2^63 in sum mode (overflow is outside the property)
